@@ -349,7 +349,7 @@ func (c *Ctx) checkRefundAmount(rule string, f *ssa.Function, m Eff) {
 // checkEventAtomic: handler called with the cached context; commit guarded by err == nil.
 func (c *Ctx) checkEventAtomic(rule string, f *ssa.Function) {
 	r := c.R
-	var cacheCall, handleCall *ssa.Call
+	var cacheCall *ssa.Call
 	ana.Instrs(f, func(in ssa.Instruction) {
 		call, ok := in.(*ssa.Call)
 		if !ok {
@@ -362,19 +362,37 @@ func (c *Ctx) checkEventAtomic(rule string, f *ssa.Function) {
 		if d.Name == "CacheContext" {
 			cacheCall = call
 		}
-		if d.Name == "Handle" && d.Iface {
-			handleCall = call
-		}
 	})
+	handleCall := c.invokesHandler(f, 1)
 	if cacheCall == nil || handleCall == nil {
 		r.Undecided(rule, fname(f), c.P.Pos(f.Pos()), "no CacheContext/Handle pair")
 		return
 	}
 	// first argument of Handle is Extract #0 of CacheContext
 	okCtx := false
-	if len(handleCall.Call.Args) > 0 {
-		if ex, ok := handleCall.Call.Args[0].(*ssa.Extract); ok && ex.Tuple == ssa.Value(cacheCall) && ex.Index == 0 {
+	for _, a := range handleCall.Call.Args {
+		if n := ana.NamedOf(a.Type()); n == nil || n.Obj().Name() != "Context" {
+			continue
+		}
+		if ex, ok := a.(*ssa.Extract); ok && ex.Tuple == ssa.Value(cacheCall) && ex.Index == 0 {
 			okCtx = true
+		} else {
+			okCtx = false
+			break
+		}
+	}
+	// a forwarding wrapper must hand its own context parameter to the handler
+	if callee := handleCall.Call.StaticCallee(); callee != nil && okCtx {
+		if inner := c.invokesHandler(callee, 0); inner != nil {
+			fw := false
+			for _, a := range inner.Call.Args {
+				if par, ok := a.(*ssa.Parameter); ok {
+					if n := ana.NamedOf(par.Type()); n != nil && n.Obj().Name() == "Context" {
+						fw = true
+					}
+				}
+			}
+			okCtx = fw
 		}
 	}
 	// commit() calls: dynamic calls of Extract #1
